@@ -264,6 +264,8 @@ class Repo:
                     fi = FuncInfo(self, ci.mod, ci, d["set"], "set")
                     self.funcs[fi.qual] = fi
         self._helper_width_cache = {}
+        from . import normalize
+        self.normalizer = normalize.apply(self)
 
     # ------------------------------------------------------------ lookup
     def mod(self, name):
